@@ -22,9 +22,10 @@ REP = '{"*", "/", "+", "=", "AND", "OR"}'
 SUB = '{"*", "+", "=", "AND", "OR"}'
 
 
-def cfg(k, maxspecial, ops, sub, nest="{1}", lits="{}"):
+def cfg(k, maxspecial, ops, sub, nest="{1}", lits="{}", inv=True):
     return ("SPECIFICATION Spec\nCONSTANTS\n  K = %d\n  MaxSpecial = %d\n  OpsUsed = %s\n  SubOps = %s\n  Nest = %s\n  Lits = %s\n"
-            "INVARIANTS Agree Fold ReparseStable\nCHECK_DEADLOCK FALSE\n" % (k, maxspecial, ops, sub, nest, lits))
+            "  Long = %s\n%sCHECK_DEADLOCK FALSE\n" % (k, maxspecial, ops, sub, nest, lits, "FALSE" if inv else "TRUE",
+                                                        "INVARIANTS Agree Fold ReparseStable Local\n" if inv else ""))
 
 
 def run(ctx):
@@ -44,16 +45,24 @@ def run(ctx):
         # literal operands, negative ones too ( -1 * -2 , a - -2 , a / -1 * b ), next to one signed / parenthesised operand
         parts.append(("lits3", cfg(3, 0, '{"*", "/", "-", "+"}', '{"*"}', lits='{"-1", "-2", "2"}'), None, None))
         parts.append(("lits2", cfg(2, 1, '{"*", "/", "-", "="}', '{"*", "+"}', lits='{"-1", "-2"}'), None, None))
+        # one operator of every precedence level, every chain of up to 6 of them (level patterns like AND OR = = with jumps of
+        # more than one level)
+        parts.append(("levels5", cfg(5, 0, '{"*", "+", "=", "AND", "OR"}', '{"*"}'), None, None))
+        # long chains: every prefix of a few random chains of up to 140 operators (64 is a slab size, 3 the ring size)
+        parts.append(("long", cfg(140, 0, ALL, '{"*"}', inv=False), "num=3", 141))
         parts.append(("sim", cfg(6, 0, ALL, '{"*"}'), "num=100", 7))
     else:
         parts.append(("plain4", cfg(4, 0, ALL, '{"*"}'), None, None))          # 137 560 chains, exhaustive
         parts.append(("forms3", cfg(3, 1, REP, SUB, "{1, 2, 3}"), None, None))    # one special operand, k<=3, nesting <= 3
         parts.append(("forms2x2", cfg(2, 2, REP, '{"*", "+"}', "{1, 2}"), None, None))  # two special operands, k<=2
-        parts.append(("lits3", cfg(3, 1, REP + ' \\cup {"-", "%", "<"}', SUB, lits='{"-1", "-2", "2", "1", "0"}', nest="{1, 2}"), None, None))
+        parts.append(("lits3", cfg(3, 0, '{"*", "/", "-", "+", "="}', '{"*"}', lits='{"-1", "-2", "2", "1", "0"}'), None, None))     # 162 k
+        parts.append(("lits2", cfg(2, 1, '{"*", "/", "-", "+", "="}', '{"*", "+"}', lits='{"-1", "-2", "2", "1", "0"}', nest="{1, 2}"), None, None))
         parts.append(("sim", cfg(8, 0, ALL, '{"*"}', lits='{"-1", "2"}'), "num=1200", 9))
         parts.append(("simforms", cfg(5, 3, ALL, SUB, "{1, 2}"), "num=60", 6))
+        parts.append(("levels7", cfg(7, 0, '{"*", "+", "=", "AND", "OR"}', '{"*"}'), None, None))
+        parts.append(("long", cfg(300, 0, ALL, '{"*"}', inv=False), "num=6", 301))
     for name, text, sim, depth in parts:
-        cf, r = gen(ctx, text, name, simulate=sim, depth=depth)
+        cf, r = gen(ctx, text, name, simulate=sim, depth=depth, workers=1 if name == "long" else 4)   # long lines: one writer
         if sim:
             ctx.exhaustive = False
         of = ctx.path("obs_%s.ndjson" % name)
